@@ -4,7 +4,7 @@
 # usage: tools/run_benign.sh [ID-G ...]  -> prints one line per check; exit 1 if any check raised an alarm
 VHOME=$(cd "$(dirname "$0")/.." && pwd)
 cd "$VHOME"
-ids=${@:-$(ls benign | grep -E '^C[0-9]+-[GJM]$')}
+ids=${@:-$(ls benign | grep -E '^C[0-9]+-[GJMQRS]$')}
 bad=0
 for d in $ids; do
   p=$VHOME/benign/$d/patch.diff
